@@ -20,6 +20,10 @@ CLAIMED = {
   "text": "Spec functions distinct / intersection / except / overlap on element lists with identity = same entry word and payload; proved laws: first occurrence, no repeats, idempotence, intersection/except partition the first list by one decision sequence, overlap iff intersection non-empty; byte-level array_distinct refines the spec and yields a canonical array. Correspondence and oracle over pairs of derived documents with heavy duplication, nested equal/unequal containers, scalar and object operands, empty arrays.",
   "note": "Byte-level refinement is proved for array_distinct only; intersection/except/overlap byte walkers are tied by correspondence and decided by the spec oracle.",
  },
+ "C14": {
+  "text": "The unchanged code violates this property in three specific ways (genuine defect D14, not a small repair: the key format would have to change). Each is proved as a negation theorem with a concrete witness evaluated by the Lean kernel on the byte-level model of convert_to_comparable, replayed on the real code from corpus/C14, and listed in known_findings.json with a narrow matcher (class of the first difference found by walking the two documents in compare order). Every pair of derived documents is checked on the real code (key order vs compare); a disagreement outside the three classes is a VIOLATION. Key bytes themselves are tied by correspondence (with prefixes).",
+  "note": "Level is proof for the negations; the positive embedding theorem on the restricted domain is still open, so outside the finding classes the claim rests on the sampled oracle.",
+ },
  "C10": {
   "text": "Theorem: for every byte string (and every fuel) the decoder model reaches no panic site; valid encodings decode without running out of fuel. The model mirrors de.rs/number.rs call by call with every unwrap/index/assert as an explicit panic outcome; correspondence runs truncations, bit flips, substitutions, insert/delete, rewritten count/type/length words and random bytes through parse_jsonb and the model. Any panic of the real code is reported as a violation.",
   "note": "Three genuine defects were repaired first (fix: commits 62e309b, 3f3a454, 5f197fa). Still to be proved: UTF-8 of returned strings (checked by correspondence now), prefix rejection, text fallback of from_slice (needs the JSON parser model).",
